@@ -68,6 +68,7 @@ class _Env(object):
     self.jump_ok = True
     self.has_o = True      # o, d, l are in scope
     self.int_return = False  # function must return ints (helpers, nested defs)
+    self.catchable = ()      # exception class names some enclosing handler of this function catches
 
   def copy(self):
     e = _Env()
@@ -260,7 +261,7 @@ class Gen(object):
         return 'partial(%s, %s)(%s)' % (name, e(), e())
       return 'partial(%s)(%s)' % (name, e())
     if k == 'attr':
-      return self.choice(['o.x', 'o.y'])
+      return self.choice(['o.x', 'o.y', '(0 if o.n is None else 1)'])
     if k == 'key':
       return self.choice(["d['k']", 'l[0]', 'l[-1]'])
     if k == 'lamcall':
@@ -326,12 +327,16 @@ class Gen(object):
       kinds += ['if'] * 5 + ['while'] * 2 + ['for'] * 3
       if cfg['try'] and not cfg['pure']:
         kinds += ['try'] * 2
+        if cfg['jumps'] and cfg.get('raise', True) and not env.in_finally and effects:
+          kinds += ['shape_try_return', 'shape_nested_try']
       if cfg['with'] and not cfg['pure']:
         kinds += ['with']
       if cfg['defs'] and env.fn_depth < 2:
         kinds += ['def']
     if cfg['lambdas']:
       kinds += ['lam']
+    if cfg['defs'] and any(kk == 'fn' for kk in env.bound.values()):
+      kinds += ['fnalias']
     if effects:
       kinds += ['effect'] * 2
     if cfg['composites'] and env.has_o:
@@ -384,10 +389,21 @@ class Gen(object):
       return env
     if k == 'setattr':
       if cfg['pure']:
-        form = self.choice(['o.x = %s', "d['k'] = %s", 'o.y = %s'])
+        form = self.choice(['o.x = %s', "d['k'] = %s", 'o.y = %s', 'optattr'])
       else:
-        form = self.choice(['o.x = %s', 'o.x += %s', "d['k'] = %s", "d['k'] -= %s", 'l[0] = %s', 'o.z = %s', 'l[-1] = %s', 'setdel'])
+        form = self.choice(['o.x = %s', 'o.x += %s', "d['k'] = %s", "d['k'] -= %s", 'l[0] = %s', 'o.z = %s', 'l[-1] = %s', 'setdel', 'aliaskey', 'optattr'])
       self.note('composite_write')
+      if form == 'aliaskey':
+        # composite key whose base name is bound right here: d[ob.x] must not become loop/branch
+        # state of an enclosing statement that does not bind `ob`
+        self.note('composite_index_with_local_base')
+        lines.append('%sob = o' % sp)
+        lines.append('%sd[ob.x] = %s' % (sp, self.expr(env)))
+        return env
+      if form == 'optattr':
+        self.note('none_valued_attribute')
+        lines.append('%so.n = %s' % (sp, self.choice(['None', self.expr(env)])))
+        return env
       if form == 'setdel':
         # a key that exists only between the two statements: subscript deletion stays total
         self.note('subscript_delete')
@@ -434,6 +450,22 @@ class Gen(object):
       e2 = env.copy()
       e2.bound[f] = 'fn'
       return e2
+    if k == 'fnalias':
+      # a local function reached under another name (alias): closure liveness must follow it
+      src_fns = sorted(n for n, kk in env.bound.items() if kk == 'fn')
+      dst = [n for n in cfg['fn_names'] if env.bound.get(n, 'fn') == 'fn']
+      if not src_fns or not dst:
+        lines.append(sp + 'pass')
+        return env
+      a_, b_ = self.choice(dst), self.choice(src_fns)
+      if a_ == b_:
+        lines.append(sp + 'pass')
+        return env
+      self.note('local_fn_alias')
+      lines.append('%s%s = %s' % (sp, a_, b_))
+      e2 = env.copy()
+      e2.bound[a_] = 'fn'
+      return e2
     if k == 'return':
       self.note('return')
       if env.loop or env.depth:
@@ -450,8 +482,17 @@ class Gen(object):
       return None
     if k == 'raise':
       self.note('raise')
-      lines.append('%sraise %s(%s)' % (sp, self.choice(['E1', 'E2', 'E3', 'ValueError']), self.expr(env, 1, False)))
+      pool = ['E1', 'E2', 'E3', 'ValueError']
+      if env.catchable and self.chance(70):
+        # explicit raise caught by a handler of the same function (inner or outer try)
+        pool = list(env.catchable)
+        self.note('raise_of_catchable_type')
+      lines.append('%sraise %s(%s)' % (sp, self.choice(pool), self.expr(env, 1, False)))
       return None
+    if k == 'shape_try_return':
+      return self.shape_try_return(env, ind, lines)
+    if k == 'shape_nested_try':
+      return self.shape_nested_try(env, ind, lines)
     if k == 'if':
       return self.if_stmt(env, ind, lines)
     if k == 'while':
@@ -520,7 +561,11 @@ class Gen(object):
       self.assign_stack.append(set())
       o_else = self.block(self.sub(env), ind + 1, lines)
       a_else = self.assign_stack.pop()
-      common = set.intersection(a_else, *branch_assigned)
+      # names assigned on every path that can fall through (branches ending in a jump do not count)
+      sets = [a_ for a_, o_ in zip(branch_assigned, outs) if o_ is not None]
+      if o_else is not None:
+        sets.append(a_else)
+      common = set.intersection(*sets) if sets else set()
       if common and (env.depth >= 1 or self.meta.get('return')) and self.excl('no_all_branch_rebind_in_nested_block'):
         # (statements after an early return are nested under the generated `if not do_return:`)
         # F29: a variable assigned on every path of a nested conditional may be made local to the
@@ -683,17 +728,24 @@ class Gen(object):
         for n in pre:
           lines.append('%s%s = 0' % (sp, n))
           env = self.bind(env, n)
+    # handler types are drawn first so that raises in the body can aim at them
+    htypes = []
+    for i in range(nh):
+      htypes.append(self.choice([t_ for t_ in ['E1', 'E2', 'E3', 'ValueError', '(E1, E2)', '(E2, ValueError)'] if t_ not in htypes]))
+    caught = []
+    for t_ in htypes:
+      caught += [x.strip() for x in t_.strip('()').split(',')]
+    if 'E1' in caught and 'E3' not in caught:
+      caught.append('E3')   # E3 subclasses E1
     if has_fin:
       lines.append('%stryin(%d)' % (sp, k))
     lines.append('%stry:' % sp)
-    body_env = self.sub(env, trydepth=env.trydepth + 1)
+    body_env = self.sub(env, trydepth=env.trydepth + 1, catchable=tuple(sorted(set(env.catchable) | set(caught))))
     self.assign_stack.append(set())
     out = self.block(body_env, ind + 1, lines)
     outs = [out]
-    seen = []
     for i in range(nh):
-      typ = self.choice([t_ for t_ in ['E1', 'E2', 'E3', 'ValueError', '(E1, E2)', '(E2, ValueError)'] if t_ not in seen])
-      seen.append(typ)
+      typ = htypes[i]
       as_ = self.chance(50)
       self.note('except_as' if as_ else 'except')
       lines.append('%sexcept %s%s:' % (sp, typ, ' as ex' if as_ else ''))
@@ -762,6 +814,49 @@ class Gen(object):
         self.cfg['jumps'] = saved
     return self.block(env, ind, lines)
 
+  # ---- forced shapes (DESIGN 4.1): small templates with drawn holes ----------------------------
+  def shape_try_return(self, env, ind, lines):
+    """A try inside an if branch whose body ends in return, with an explicit raise before it that a
+    fall-through handler of the same try catches; more statements follow the if."""
+    sp = '  ' * ind
+    self.note('shape:try_ending_in_return_inside_branch')
+    exc = self.choice(['E1', 'E2', 'ValueError'])
+    x = self.target(env)
+    lines.append('%sif %s:' % (sp, self.cond(env)))
+    lines.append('%s  try:' % sp)
+    lines.append('%s    if %s:' % (sp, self.cond(env)))
+    lines.append('%s      raise %s(%s)' % (sp, exc, self.expr(env, 1, False)))
+    lines.append('%s    return %s' % (sp, self.retexpr(env)))
+    lines.append('%s  except %s:' % (sp, exc))
+    lines.append('%s    t(%s)' % (sp, self.expr(env, 1)))
+    if self.chance(50):
+      lines.append('%selse:' % sp)
+      lines.append('%s  t(%s)' % (sp, self.expr(env, 1)))
+    lines.append('%s%s = t(%s)' % (sp, x, self.expr(env, 1)))
+    return self.bind(env, x)
+
+  def shape_nested_try(self, env, ind, lines):
+    """Nested try statements, both with handlers; an explicit raise in the inner body that only the
+    outer handler catches; a variable written in a branch just before the raise, read in the outer
+    handler and overwritten on the normal path."""
+    sp = '  ' * ind
+    self.note('shape:raise_caught_by_outer_handler_only')
+    x = self.target(env)
+    lines.append('%s%s = %s' % (sp, x, self.expr(env, 1)))
+    env = self.bind(env, x)
+    inner, outer = self.choice([('E1', 'E2'), ('E2', 'E1'), ('ValueError', 'E2'), ('E2', 'ValueError')])
+    lines.append('%stry:' % sp)
+    lines.append('%s  try:' % sp)
+    lines.append('%s    if %s:' % (sp, self.cond(env)))
+    lines.append('%s      %s = %s' % (sp, x, self.expr(env, 1)))
+    lines.append('%s      raise %s(%s)' % (sp, outer, self.expr(env, 1, False)))
+    lines.append('%s    %s = %s' % (sp, x, self.expr(env, 1)))
+    lines.append('%s  except %s:' % (sp, inner))
+    lines.append('%s    t(%s)' % (sp, self.expr(env, 1)))
+    lines.append('%sexcept %s:' % (sp, outer))
+    lines.append('%s  t(%s)' % (sp, x))
+    return env
+
   def with_stmt(self, env, ind, lines):
     sp = '  ' * ind
     self.note('with')
@@ -809,7 +904,10 @@ class Gen(object):
     if extras:
       self.note('def_with_default_and_decorator')
       if self.chance(50):
-        lines.append('%s@deco(%s)' % (sp, self.expr(env, 1)))
+        # F34: a lambda inside a decorator expression of a nested def makes the conversion fail
+        # (no CFG is built for it); decorator expressions are drawn without nested forms
+        self.note('excluded:no_lambda_in_nested_decorator')
+        lines.append('%s@deco(%s)' % (sp, self.expr(env, 2)))
       lines.append('%sdef %s(q, r=%s):' % (sp, f, self.expr(env, 1)))
       inner.bound['r'] = 'int'
     else:
